@@ -414,62 +414,70 @@ func main() {
 		// whatever the peer, who may have answered early, has sent.
 		r.Part("E2b-handshake-writes-that-fail", func(t *explore.T) {
 			theURL, _ := url.ParseRequestURI("ws://example.com/chat")
-			long := ws.HandshakeHeaderString("X-Long-A: " + strings.Repeat("a", 90) + "\r\nX-Long-B: " + strings.Repeat("b", 90) + "\r\n")
-			for _, wb := range []int{0, 64} {
-				for k := 0; k < 8; k++ {
-					for _, taken := range []string{"nothing", "half", "all-but-error"} {
-						for _, eager := range []bool{false, true} {
-							wb, k, taken, eager := wb, k, taken, eager
-							t.Do(func() string {
-								return fmt.Sprintf("Dialer.Upgrade write buffer %d: write #%d to the connection fails having taken %s; peer answers 101 early=%v", wb, k, taken, eager)
-							}, func() *explore.Fail {
-								d := ws.Dialer{WriteBufferSize: wb, Header: long, Protocols: []string{"a"}}
-								conn := &failWriteConn{failAt: k, taken: taken}
-								conn.Respond = func(req []byte) []byte {
-									if !eager && conn.failed {
+			longs := []ws.HandshakeHeader{
+				ws.HandshakeHeaderString("X-Long-A: " + strings.Repeat("a", 90) + "\r\nX-Long-B: " + strings.Repeat("b", 90) + "\r\n"),
+				// one header handed over in a single Write, larger than twice the default write buffer:
+				// the buffered writer passes it straight through to the connection
+				ws.HandshakeHeaderBytes("X-Huge: " + strings.Repeat("h", 1500) + "\r\n"),
+				ws.HandshakeHeaderBytes("X-Mid: " + strings.Repeat("m", 600) + "\r\n"),
+			}
+			for li, long := range longs {
+				for _, wb := range []int{0, 64} {
+					for k := 0; k < 8; k++ {
+						for _, taken := range []string{"nothing", "half", "all-but-error"} {
+							for _, eager := range []bool{false, true} {
+								wb, k, taken, eager := wb, k, taken, eager
+								t.Do(func() string {
+									return fmt.Sprintf("Dialer.Upgrade write buffer %d, extra header #%d: write #%d to the connection fails having taken %s; peer answers 101 early=%v", wb, li, k, taken, eager)
+								}, func() *explore.Fail {
+									d := ws.Dialer{WriteBufferSize: wb, Header: long, Protocols: []string{"a"}}
+									conn := &failWriteConn{failAt: k, taken: taken}
+									conn.Respond = func(req []byte) []byte {
+										if !eager && conn.failed {
+											return nil
+										}
+										return []byte("HTTP/1.1 101 Switching Protocols\r\nUpgrade: websocket\r\nConnection: Upgrade\r\nSec-WebSocket-Accept: " + hs.Accept(hs.KeyOf(conn.attempted.Bytes())) + "\r\n\r\n")
+									}
+									_, _, err := d.Upgrade(conn, theURL)
+									if !conn.failed {
+										if err != nil {
+											return explore.Failf("harness-clean-dial-fails", "%v", err)
+										}
+										t.Outcome("no-such-write")
 										return nil
 									}
-									return []byte("HTTP/1.1 101 Switching Protocols\r\nUpgrade: websocket\r\nConnection: Upgrade\r\nSec-WebSocket-Accept: " + hs.Accept(hs.KeyOf(conn.attempted.Bytes())) + "\r\n\r\n")
-								}
-								_, _, err := d.Upgrade(conn, theURL)
-								if !conn.failed {
+									if err == nil {
+										return explore.Failf("dial-succeeds-although-a-request-write-failed", "write #%d failed (%s taken), Upgrade returned nil", k, taken)
+									}
+									t.Outcome("request-write-failure-reported")
+									return nil
+								})
+							}
+							wb, k, taken := wb, k, taken
+							t.Do(func() string {
+								return fmt.Sprintf("Upgrader.Upgrade write buffer %d, extra header #%d: write #%d of the response fails having taken %s", wb, li, k, taken)
+							}, func() *explore.Fail {
+								u := ws.Upgrader{WriteBufferSize: wb, Header: long, Protocol: func([]byte) bool { return true }}
+								req := make(hs.Req, len(hs.ReqFields)).Build()
+								dst := &failDst{failAt: k, taken: taken}
+								_, err := u.Upgrade(struct {
+									io.Reader
+									io.Writer
+								}{bytes.NewReader(req), dst})
+								if !dst.failed {
 									if err != nil {
-										return explore.Failf("harness-clean-dial-fails", "%v", err)
+										return explore.Failf("harness-clean-upgrade-fails", "%v", err)
 									}
 									t.Outcome("no-such-write")
 									return nil
 								}
 								if err == nil {
-									return explore.Failf("dial-succeeds-although-a-request-write-failed", "write #%d failed (%s taken), Upgrade returned nil", k, taken)
+									return explore.Failf("upgrade-succeeds-although-a-response-write-failed", "write #%d failed (%s taken), Upgrade returned nil", k, taken)
 								}
-								t.Outcome("request-write-failure-reported")
+								t.Outcome("response-write-failure-reported")
 								return nil
 							})
 						}
-						wb, k, taken := wb, k, taken
-						t.Do(func() string {
-							return fmt.Sprintf("Upgrader.Upgrade write buffer %d: write #%d of the response fails having taken %s", wb, k, taken)
-						}, func() *explore.Fail {
-							u := ws.Upgrader{WriteBufferSize: wb, Header: long, Protocol: func([]byte) bool { return true }}
-							req := make(hs.Req, len(hs.ReqFields)).Build()
-							dst := &failDst{failAt: k, taken: taken}
-							_, err := u.Upgrade(struct {
-								io.Reader
-								io.Writer
-							}{bytes.NewReader(req), dst})
-							if !dst.failed {
-								if err != nil {
-									return explore.Failf("harness-clean-upgrade-fails", "%v", err)
-								}
-								t.Outcome("no-such-write")
-								return nil
-							}
-							if err == nil {
-								return explore.Failf("upgrade-succeeds-although-a-response-write-failed", "write #%d failed (%s taken), Upgrade returned nil", k, taken)
-							}
-							t.Outcome("response-write-failure-reported")
-							return nil
-						})
 					}
 				}
 			}
